@@ -177,22 +177,27 @@ def levelSeek (db : List KV) (rng : SeekRange) : List KV :=
   let inR := fun (e : KV) => lexLe r.1 e.1 && (match r.2 with | none => true | some l => lexLt e.1 l)
   sortKV rng.bw (db.filter inR)
 
+/-- the loop guard of `boltSeek` (boltdb_store.go:176):
+`bytes.HasPrefix(k, rng.Prefix) && (len(rang.Limit) == 0 || bytes.Compare(k, rang.Limit) <= 0)`. -/
+def boltGuard (rng : SeekRange) (k : Key) : Bool :=
+  rng.pfx.isPrefixOf k && (match (seekRangeToPrefixes rng).2 with | none => true | some l => lexLe k l)
+
+/-- the keys before the backward start position (boltdb_store.go:166-172):
+`len(Limit)==0`: `c.Last()`; else `c.Seek(Limit); c.Prev()`. -/
+def boltBelow (rng : SeekRange) (sorted : List KV) : List KV :=
+  match (seekRangeToPrefixes rng).2 with
+  | none => sorted
+  | some l => sorted.takeWhile (fun e => lexLt e.1 l)
+
 /-- `boltSeek` (boltdb_store.go:152-187). Cursor contract: `Seek x` = first key ≥ x, `Next`/`Prev`
 move in key order, `Prev` after a `Seek` past the end gives the last key. -/
 def boltSeek (db : List KV) (rng : SeekRange) : List KV :=
   let sorted := sortKV false db
-  let r := seekRangeToPrefixes rng
-  let ok := fun (e : KV) =>
-    rng.pfx.isPrefixOf e.1 && (match r.2 with | none => true | some l => lexLe e.1 l)
   if !rng.bw then
     -- k, v = c.Seek(rang.Start); next = c.Next
-    (sorted.dropWhile (fun e => lexLt e.1 r.1)).takeWhile ok
+    (sorted.dropWhile (fun e => lexLt e.1 (seekRangeToPrefixes rng).1)).takeWhile (fun e => boltGuard rng e.1)
   else
-    -- len(Limit)==0: c.Last(); else c.Seek(Limit); c.Prev()
-    let below := match r.2 with
-      | none => sorted
-      | some l => sorted.takeWhile (fun e => lexLt e.1 l)
-    below.reverse.takeWhile ok
+    (boltBelow rng sorted).reverse.takeWhile (fun e => boltGuard rng e.1)
 
 /-! ### MemCachedStore seek -/
 
